@@ -48,7 +48,7 @@ CLAIMS = {
    note="Assumed (trusted frames/contracts): CalcOrder, WorkShareLogEntropy, IsGenesisHash, NodeLocation (length is a function of the chain object), database readers GetHeaderByHash/GetBlock/GetBlockByHash/GetBlockNumber and ComputeExpansionNumber touch only caches, WorkObject.Hash is a function of the header object within one call. Not under contract: the entropy accumulation formulas (DeltaLogEntropy, UncledDeltaLogEntropy), difficulty/gas-limit/base-fee conjuncts, fork choice.",
    design="4 (C09)", technique="contract-based deductive verification: accept => conjunct clauses per exit on a large function with trusted callee frames, VCs from go/ssa, z3/cvc5"),
  "C13": dict(
-   text="Pending-view contracts on the real lockup accessors: ReadCoinbaseLockup returns (0,0,0) for a lockup whose deletion the pending batch records, whatever the database holds, and never writes; DeleteCoinbaseLockup records the deletion in a tracking batch; CalculateReward returns a fresh copy of the Quai or Qi reward of its arguments.",
+   text="Pending-view contracts on the real lockup accessors: ReadCoinbaseLockup returns (0,0,0) for a lockup whose deletion the pending batch records, whatever the database holds, and never writes; DeleteCoinbaseLockup records the deletion in a tracking batch; CalculateReward returns a fresh copy of the Quai or Qi reward of its arguments; the lockup bonus: CalculateLockupByteRewardsMultiple accepts exactly lockup bytes 1..3 and its result lies between the terminal and the first-year multiple of the table (table values and blocks-per-year proved from the package initialiser), CalculateCoinbaseValueWithLockup returns the value itself without lockup and otherwise at most value x first-year multiple / 100000, neither panics (nonlinear arithmetic); AddNewLock's undo record (see C10); a failed frame must leave no pending lockup deletion in the block batch (EVM.Call clause 4: known finding).",
    note="Assumed: CoinbaseLockupKey is a function of its arguments (trusted), ethdb.Batch ghost contract (C17). Not under contract: RedeemLockedQuai / AddNewLock loops, the reward split among work shares, lockup-contract execution.",
    design="4 (C13)", technique="contract-based deductive verification with ghost pending-view state, VCs from go/ssa, z3/cvc5"),
  "C15": dict(
